@@ -1,7 +1,7 @@
 #!/bin/sh
 # usage: tools/seedverify.sh C09 a   -> verifies /tmp/seed-C09/_seed/a.diff + demo_a.py in that worktree,
 # and on success stores it as /verif/seeded/C09a/{patch.diff,demo.py,notes.md,verify.log}
-ID="$1"; V="$2"; WT="/tmp/seed-$ID"; S="$WT/_seed"
+ID="$1"; V="$2"; WT="${SEED_PREFIX:-/tmp/seed}-$ID"; S="$WT/_seed"
 [ -f "$S/$V.diff" ] && [ -f "$S/demo_$V.py" ] || { echo "missing files for $ID$V"; exit 2; }
 cd "$WT" || exit 2
 git checkout -q -- . ; LOG="$(mktemp)"
